@@ -2,6 +2,7 @@ package zzverif_c15
 
 import (
 	"context"
+	"regexp"
 
 	"github.com/cosi-project/runtime/pkg/controller/runtime/internal/cache"
 	"github.com/cosi-project/runtime/pkg/controller/runtime/options"
@@ -95,4 +96,63 @@ func H_ConcurrentList() {
 	if mb && !ma {
 		verif.Cover("list preceded the update")
 	}
+}
+
+// H_CachedIsolation (C19/C15): objects handed out by the cache - Get, unfiltered List, label-filtered
+// List, id-filtered List - are isolated from it: mutating them through the public metadata/spec API
+// changes nothing that later readers see.
+func H_CachedIsolation() {
+	ctx := context.Background()
+	c := cache.NewResourceCache([]options.CachedResource{{Namespace: tres.NS, Type: tres.TypeA}})
+	c.CacheAppend(mkRes(entry{id: "a", version: 1, label: "x"}))
+	c.MarkBootstrapped(tres.NS, tres.TypeA)
+	given := mkRes(entry{id: "b", version: 1, label: "x"})
+	c.CachePut(given) // arrives through a watch event after the bootstrap
+	ptrB := resource.NewMetadata(tres.NS, tres.TypeA, "b", resource.VersionUndefined)
+	var victim resource.Resource
+	switch verif.Choose("handOver", 4) {
+	case 0:
+		verif.Case("Get")
+		r, err := c.Get(ctx, ptrB)
+		verif.Assert(err == nil, "get")
+		victim = r
+	case 1:
+		verif.Case("List")
+		l, err := c.List(ctx, kind())
+		verif.Assert(err == nil && len(l.Items) == 2, "list")
+		victim = l.Items[1]
+	case 2:
+		verif.Case("label-filtered List")
+		l, err := c.List(ctx, kind(), state.WithLabelQuery(resource.LabelEqual("l", "x")))
+		verif.Assert(err == nil && len(l.Items) == 2, "filtered list")
+		victim = l.Items[1]
+	case 3:
+		verif.Case("id-filtered List")
+		l, err := c.List(ctx, kind(), state.WithIDQuery(resource.IDRegexpMatch(regexp.MustCompile("^b$"))))
+		verif.Assert(err == nil && len(l.Items) == 1, "id-filtered list")
+		victim = l.Items[0]
+	}
+	// (the object given to the cache comes from a watch event; event objects are shared and read-only
+	// by contract, so it is not a hand-over point of the property)
+	verif.Assert(victim.Metadata().ID() == "b", "the hand-over yields resource b")
+	switch verif.Choose("mutation", 6) {
+	case 0:
+		victim.Metadata().Labels().Set("l", "mutated")
+	case 1:
+		victim.Metadata().Labels().Delete("l")
+	case 2:
+		victim.Metadata().Finalizers().Add("fin")
+	case 3:
+		victim.Metadata().SetPhase(resource.PhaseTearingDown)
+	case 4:
+		victim.Metadata().SetVersion(resource.ZZVersion(9))
+	case 5:
+		victim.(*tres.A).TypedSpec().S = "mutated"
+	}
+	want := entry{id: "b", version: 1, label: "x"}
+	r, err := c.Get(ctx, ptrB)
+	verif.Assert(err == nil && sameAs(r, want) && r.Metadata().Finalizers().Empty() && tres.SpecOf(r).S == "v", "mutating an object handed out by the cache does not change what cached Get returns")
+	l, err := c.List(ctx, kind(), state.WithLabelQuery(resource.LabelEqual("l", "x")))
+	verif.Assert(err == nil && len(l.Items) == 2 && sameAs(l.Items[1], want) && l.Items[1].Metadata().Finalizers().Empty() && tres.SpecOf(l.Items[1]).S == "v", "nor what a filtered cached List returns")
+	verif.Cover("isolation checked")
 }
